@@ -396,3 +396,66 @@ def event_text(e):
         b = lit_bytes(e['e'])
         return b.decode('utf-8', 'replace') if b is not None else None
     return None
+
+
+def _strip_wrappers(e):
+    while isinstance(e, dict) and (e.get('k') == 'addr' or (e.get('k') == 'unary' and e.get('op') == 'Deref') or
+                                   (e.get('k') == 'block' and not e.get('stmts') and 'expr' in e)):
+        e = e['expr'] if e.get('k') == 'block' else e['e']
+    return e
+
+
+def _count_nodes(e):
+    n = 0
+    stack = [e]
+    while stack:
+        x = stack.pop()
+        if isinstance(x, dict):
+            n += 1
+            stack.extend(x.values())
+        elif isinstance(x, list):
+            stack.extend(x)
+    return n
+
+
+def inline_calls(facts, hfn, depth=3, budget=6000, skip=()):
+    """the function body with calls of crate-local functions replaced by the callee's body in which the
+    parameters are replaced by the (already inlined) argument expressions; closures passed as
+    arguments are applied where the callee calls them; recursive up to `depth`, bounded in size"""
+    def beta(n):
+        if isinstance(n, dict):
+            if n.get('k') == 'call' and isinstance(n.get('f'), dict) and _strip_wrappers(n['f']).get('k') == 'closure':
+                cl = _strip_wrappers(n['f'])
+                ps = cl.get('params', [])
+                if len(ps) == len(n['args']) and all(p.get('k') == 'bind' for p in ps):
+                    return beta(subst(cl['body'], {p['name']: a for p, a in zip(ps, n['args'])}))
+            return {k: (v if k in CHILD_SKIP else beta(v)) for k, v in n.items()}
+        if isinstance(n, list):
+            return [beta(x) for x in n]
+        return n
+
+    def inline(n, d, stack):
+        if isinstance(n, dict):
+            n2 = {k: (v if k in CHILD_SKIP else inline(v, d, stack)) for k, v in n.items()}
+            dd, cargs = None, None
+            if n2.get('k') == 'call' and isinstance(n2.get('f'), dict) and n2['f'].get('k') == 'path':
+                dd, cargs = n2['f'].get('def'), list(n2['args'])
+            elif n2.get('k') == 'mcall':
+                dd, cargs = n2.get('def'), [n2['recv']] + list(n2['args'])
+            if dd and d > 0 and dd not in stack and dd not in skip and dict.__contains__(facts.hir, dd):
+                h2 = facts.hir[dd]
+                mapping = param_mapping(h2, cargs)
+                if (mapping or not h2.get('params')) and _count_nodes(h2['body']) < budget:
+                    body = beta(subst(h2['body'], mapping))
+                    return inline(body, d - 1, stack | {dd})
+            return n2
+        if isinstance(n, list):
+            return [inline(x, d, stack) for x in n]
+        return n
+    return inline(hfn['body'], depth, frozenset([hfn['path']]))
+
+
+def inlined_fn(facts, hfn, depth=3, keep=()):
+    """keep: suffixes of function paths whose calls are left in place (the calls a rule is about)"""
+    skip = {d for d in facts.hir if any(d.endswith(k) for k in keep)} if keep else ()
+    return {'path': hfn['path'], 'params': hfn.get('params', []), 'body': inline_calls(facts, hfn, depth, skip=skip)}
